@@ -534,7 +534,8 @@ func (r *Reader) seekLinear(tabIter *tableIter, want record) (bool, error) {
 			return false, err
 		}
 		if !ok {
-			panic("read from fresh block failed")
+			// A block without records: corrupt input.
+			return false, fmtError
 		}
 		if rec.key() > wantKey {
 			break
